@@ -931,6 +931,40 @@ fn c09_c19(ctx: &Ctx, props: &[&'static str]) -> Report {
     rep.states += rep.counters.get("scales").copied().unwrap_or(0) * grid.len() as u64;
     rep.subruns.push(json!({"engine": "E2-sweep", "scales": scales.len(), "first_inputs": grid.len(), "second_inputs_per_previous_note": 28, "edits_between": 4, "all_scales": full}));
     rep.exhaustive = false;
+    // long runs: the same short cycle of conversions and edits repeated more often than a 16-bit counter holds
+    {
+        let cycles: Vec<Vec<QOp>> = vec![
+            vec![QOp::Convert(1.125), QOp::Convert(1.125), QOp::Convert(1.2)],
+            vec![QOp::Convert(2.3541667), QOp::Forbid(vec![4]), QOp::Convert(2.3541667), QOp::Allow(vec![4])],
+            vec![QOp::Forbid((0..12).collect()), QOp::Convert(0.4), QOp::Allow(vec![1, 6]), QOp::Convert(9.97), QOp::Convert(9.96)],
+            vec![QOp::Convert(-1.0), QOp::Convert(0.05), QOp::Convert(-1.0), QOp::Convert(10.5)],
+        ];
+        let cr = &cycles;
+        let reps: u64 = 66_000;
+        par_ranges(ctx, &mut rep, cycles.len() as u64, cycles.len() as u64, |_, lo, hi, lc| {
+            for j in lo..hi {
+                let mut m = QuantM::new(vec![], vec![]);
+                let cyc = &cr[j as usize];
+                'run: for n in 0..reps {
+                    for op in cyc {
+                        let mut out = StepOut::new();
+                        m.apply(op, &mut out);
+                        lc.count("long_run_operations", 1);
+                        for f in out.flags {
+                            if pr.contains(&f.prop) {
+                                let mut ops: Vec<String> = Vec::new();
+                                for _ in 0..=n {
+                                    ops.extend(cyc.iter().map(QuantM::op_str));
+                                }
+                                lc.violation(viol(f.prop, &format!("{}-in-a-long-run", f.class), format!("{} (cycle {} of a repeated sequence)", f.detail, n + 1), ops));
+                                break 'run;
+                            }
+                        }
+                    }
+                }
+            }
+        });
+    }
     // E1 histories
     explore(quant_machine(full), &ExploreCfg { max_depth: None, state_cap: 40_000_000, threads: ctx.threads, label: "allow/forbid/convert histories to fixpoint".into() }, &mut rep, props);
     enumerate_sequences(&small_quant_machine(), if full { 5 } else { 4 }, ctx, &mut rep, props, "all edit / convert sequences, no state matching");
